@@ -77,6 +77,20 @@ def check(case):
             for g in gt:
                 if e.uuid == g.uuid and e.frame_id == g.frame_id and not any(r.estimated_object is e and r.ground_truth_object is g for r in res):
                     return f"generic objects with equal uuid {e.uuid} in the same frame are not paired"
+    else:
+        # "... and then by equal uuid": once the label stage is over, no estimate and ground truth of the same camera that share a uuid
+        # may both be left unpaired; and every traffic-light estimate that is reported is reported with a ground truth (no FP rows)
+        for e in est:
+            for g in gt:
+                if e.uuid == g.uuid and e.frame_id == g.frame_id and not any(e is x for x in used_e) and not any(g is x for x in used_g):
+                    return f"traffic lights with equal uuid {e.uuid} in the same camera are both left unpaired"
+        if not case["uuid_first"]:
+            # label stage is greedy in list order: an unpaired estimate has no unpaired equally-labelled ground truth in its camera
+            for e in est:
+                for g in gt:
+                    if (e.semantic_label == g.semantic_label and e.frame_id == g.frame_id and not any(e is x for x in used_e)
+                            and not any(g is x for x in used_g)):
+                        return f"equally labelled traffic lights {e.uuid} / {g.uuid} in the same camera are both left unpaired"
     return None
 
 
